@@ -7,10 +7,10 @@ import torch
 from harness import coqio
 from harness.common import Check
 
-THEOREMS = ["C13_unique", "C13_unique_rejects", "C13_unique_slices_upto_24", "C13_random_range", "C13_random_cover",
+THEOREMS = ["C13_unique", "C13_unique_rejects", "C13_unique_slices", "C13_unique_slices_upto_24", "C13_random_range", "C13_random_cover",
             "C13_conv_unique", "C13_conv_unique_rejects", "C13_positions_distinct", "C13_tree"]
 TRUSTED = [
-    "Coq 8.16.1 kernel/coqc; theorems closed under the global context; vm_compute for the bounded slice-mirror lemma (in_dim <= 24) and kernel evaluation of the model",
+    "Coq 8.16.1 kernel/coqc; theorems closed under the global context; the slice-level mirror of get_unique_connections equals the closed form for every size (C13_unique_slices; the computation up to in_dim 24 is kept as a cross-check); vm_compute for kernel evaluation of the model",
     "hand-written model Model/Wiring.v tied by exact equality with layer.indices / kernel_pairs of real constructors run under recorded "
     "random draws (torch.randperm / torch.randint wrapped in the harness process)",
     "torch.randperm returns a permutation and torch.randint values inside [low, high): trusted",
